@@ -225,7 +225,8 @@ def gen_request(rng, lvl, defect=None, http10=False):
         elif defect == "cl-malformed":
             n = len(body)
             fields.append((cl_name, rng.choice([b"+%d" % n, b"%dx" % n, b"0x%x" % n, b"%d %d" % (n, n), b"%d,%d" % (n, n),
-                                                 b"-%d" % n, b"%d.0" % n, b"abc", b"%d;" % n])))
+                                                 b"-%d" % n, b"%d.0" % n, b"abc", b"%d;" % n,
+                                                 b"", b"", b" ", b"\t "])))       # empty / whitespace-only value
         elif defect == "cl-overflow":
             fields.append((cl_name, rng.choice([b"18446744073709551615", b"18446744073709551616", b"99999999999999999999999",
                                                  b"184467440737095516150"])))
@@ -793,9 +794,19 @@ def script_for(case, cid):
         rid[("close", code)] = n
         L.append("resp %d code=%d h=%s:%s" % (n, code, b"Connection".hex(), b"close".hex())); n += 1
     take = case.get("take")
+    seqs = case.get("resp_seq") or {}
+    seq_rid = {}
+    for i in sorted(seqs):
+        b = case["behs"][i]
+        calls = " ".join("%s=%s:%s" % (op, nm.hex(), vl.hex() if vl else "") for op, nm, vl in seqs[i])
+        L.append("resp %d code=%d %s" % (n, int(b[1:]), calls))
+        seq_rid[i] = n
+        n += 1
     for i, b in enumerate(case["behs"]):
         u = (" u=" + take) if take else ""
-        if b == "a":
+        if i in seq_rid:
+            L.append("beh 0 %d %s=r%d%s" % (i, "f" if b[0] in "ef" else "l", seq_rid[i], u if b[0] not in "ef" else ""))
+        elif b == "a":
             L.append("beh 0 %d f=no" % i)
         elif b[0] in "ef":
             L.append("beh 0 %d f=r%d" % (i, rid[("close" if b[0] == "f" else "plain", int(b[1:]))]))
@@ -959,7 +970,7 @@ class Spec:
                          "Mhd.C03.partial_takes_no_desync", "Mhd.C03.pipeline_no_desync_takes",
                          "Mhd.C03.head_refusal_no_resync", "Mhd.C03.real_parser_lawful",
                          "Mhd.C03.pipeline_no_desync_real_parser_partial", "Mhd.C03.frames_agree_reference_real_parser_partial",
-                         "Mhd.C03.split_independence_real_parser_partial"]
+                         "Mhd.C03.split_independence_real_parser_partial", "Mhd.C03.announced_close_no_further_request"]
     trusted_base = ["Lean 4 kernel", "axioms: propext, Classical.choice, Quot.sound at most (audited per theorem)",
                     "hand-written model lean/Mhd/Model/Framing*.lean, Chunked.lean tied to connection.c by this run's correspondence",
                     "reference framer / chunk grammar in lean/Mhd/Model/FramingRef.lean (specification, read it) and its independent Python twin in tools/props/C03.py",
@@ -969,6 +980,7 @@ class Spec:
                    "the interim '100 Continue' reply is not an event of the model (the Expect path need_100_continue / CONTINUE_SENDING is modelled as a state); interim replies are skipped when replies are compared",
                    "partial upload takes: proved equivalent to the take-all automaton for every schedule of arrivals/iterations/takes (partial_takes_no_desync); the application always replies at the first or at the final call",
                    "socket always writable; one connection; external select mode",
+                   "the reply's 'carries close' flag: tied to the bytes on the wire by announced_close_no_further_request (via C04 close_announced_iff) for response objects without upgrade / HTTP-1.0 flags and with known size; in the correspondence the flag given to the model is read off the wire reply",
                    "responses have a known size (no close-delimited replies)"]
 
     @property
@@ -1014,8 +1026,26 @@ class Spec:
             script += script_for(c, cid)
         hout, hrc, herr = vlib.run_lines(self.harness, script, timeout=1200)
         by = split_cases(hout)
-        mlines = ["run %d %s %s" % (c["lvl"], ",".join(c["behs"]) if c["behs"] else "-", " ".join(hx(s) for s in c["segs"]))
-                  for c in cases]
+        def model_behs(i, c):
+            """behaviour list for the model; where the response object was built by API calls, its "carries close" flag is
+            what the wire shows for that reply (C04 close_announced_iff: wire announces close <=> response object does)"""
+            if not c.get("resp_seq"):
+                return c["behs"]
+            lines = by.get(ids[i])
+            if lines is None:
+                return c["behs"]
+            replies, _ = parse_wire(parse_log(lines).wire)
+            out, ri = list(c["behs"]), 0
+            for j, b in enumerate(out):
+                if b == "a" or ri >= len(replies):
+                    break
+                if j in c["resp_seq"]:
+                    closeflag = replies[ri][1]
+                    out[j] = ("f" if b[0] in "ef" else "k") + b[1:] if closeflag else ("e" if b[0] in "ef" else "c") + b[1:]
+                ri += 1
+            return out
+        mlines = ["run %d %s %s" % (c["lvl"], ",".join(model_behs(i, c)) if c["behs"] else "-", " ".join(hx(s) for s in c["segs"]))
+                  for i, c in enumerate(cases)]
         mout, mrc, merr = run_driver(self.driver, mlines)
         if mrc != 0 or len(mout) != len(cases):
             failures.append(vlib.Failure("model", "frame: model driver failed", (merr or "")[-800:] + " lines=%d/%d" % (len(mout), len(cases)),
@@ -1073,6 +1103,12 @@ class Spec:
                 stats["noncanonical_compared_with_model"] += 1
             if c.get("real_parser"):
                 stats["compared_with_real_parser_composition"] += 1
+            if c.get("resp_seq"):
+                stats["reply_connection_calls"]["compared"] += 1
+                if any(cl for _, cl in hs["replies"]):
+                    stats["reply_connection_calls"]["wire_announced_close"] += 1
+                else:
+                    stats["reply_connection_calls"]["no_close_on_wire"] += 1
             diff = None
             if ms["reqs"] != hs["reqs"]:
                 diff = "handler calls differ: code %s model %s" % (hs["reqs"], ms["reqs"])
@@ -1086,7 +1122,8 @@ class Spec:
     @staticmethod
     def case_input(c):
         return {"lvl": c["lvl"], "mem": c["mem"], "behs": c["behs"], "segs": [hx(s) for s in c["segs"]],
-                "stream_text": c["stream"].decode("latin-1"), "defect": c.get("defect"), "take": c.get("take")}
+                "stream_text": c["stream"].decode("latin-1"), "defect": c.get("defect"), "take": c.get("take"),
+                "resp_seq": {str(i): [[op, nm.hex(), vl.hex()] for op, nm, vl in v] for i, v in (c.get("resp_seq") or {}).items()}}
 
     def gen_cases(self, ctx, n_streams):
         rng = ctx.rng
@@ -1147,6 +1184,57 @@ class Spec:
                          [head[:-1], head[-1:] + enc + tail]):
                 cases.append({"lvl": lvl, "mem": 4096, "behs": behs, "segs": [x for x in segs if x], "stream": stream,
                               "defect": "expect-100"})
+        return cases
+
+    CONN_CALLS = [("h", b"close"), ("h", b"Close"), ("h", b"close, Foo"), ("h", b"Foo, close"), ("h", b"Foo"), ("h", b"Foo, Bar"),
+                  ("h", b"Keep-Alive"), ("h", b"keep-alive, Foo"), ("h", b"cLOSE,Bar"),
+                  ("d", b"Foo"), ("d", b"close"), ("d", b"CLOSE"), ("d", b"Bar"), ("d", b"Foo, Bar"), ("d", b"Keep-Alive"),
+                  ("d", b"Foo,close"), ("d", b"close, Foo")]
+
+    def conn_header_cases(self, ctx, n):
+        """the reply's Connection header is built by a short sequence of MHD_add_response_header / MHD_del_response_header
+        calls (close, Keep-Alive and other tokens, mixed case, lists) on keep-alive HTTP/1.1 and HTTP/1.0 connections with
+        pipelined requests behind.  Oracle: whatever the calls were, a reply whose head carries a Connection field with a
+        `close` token must be the last thing on the connection — closed, no further request presented.  Model: the reply's
+        close flag is read off the wire (C04 `close_announced_iff` ties it to the response object)."""
+        rng = ctx.rng
+        cases = []
+        for i in range(n):
+            lvl = rng.choice(LEVELS)
+            http10 = rng.random() < 0.3
+            k = rng.choice([2, 2, 3])
+            reqs = []
+            for j in range(k):
+                if http10:
+                    reqs.append(b"GET /r%d HTTP/1.0\r\nHost: h\r\nConnection: %s\r\n\r\n" % (j, rng.choice([b"Keep-Alive", b"keep-alive"])))
+                elif rng.random() < 0.3:
+                    body = rand_body(rng, 12)
+                    reqs.append(b"POST /r%d HTTP/1.1\r\nHost: h\r\nContent-Length: %d\r\n\r\n" % (j, len(body)) + body)
+                else:
+                    reqs.append(b"GET /r%d HTTP/1.1\r\nHost: h\r\n\r\n" % j)
+            stream = b"".join(reqs)
+            behs = []
+            seqs = {}
+            for j in range(k):
+                code = rng.choice([200, 200, 201, 404])
+                early = rng.random() < 0.1
+                behs.append(("e%d" if early else "c%d") % code)
+                if j == 0 or rng.random() < 0.5:
+                    calls = []
+                    for _ in range(rng.choice([1, 2, 2, 3, 3, 4, 5])):
+                        op, val = rng.choice(self.CONN_CALLS)
+                        nm = rng.choice([b"Connection", b"Connection", b"connection", b"CONNECTION"])
+                        calls.append((op, nm, val))
+                    if rng.random() < 0.3:
+                        calls.insert(rng.randint(0, len(calls)), ("h", b"X-A", b"1"))
+                    seqs[j] = calls
+            segl = [[stream], [bytes([c]) for c in stream] if len(stream) <= 300 else [stream]]
+            cut = rng.randint(1, len(stream) - 1)
+            segl.append([stream[:cut], stream[cut:]])
+            segl.append(reqs)                       # one request per read: the next one arrives after the reply
+            for segs in segl:
+                cases.append({"lvl": lvl, "mem": 4096, "behs": behs, "segs": segs, "stream": stream, "defect": "reply-connection-calls",
+                              "resp_seq": seqs})
         return cases
 
     def lenient_head_cases(self, ctx, n):
@@ -1527,6 +1615,7 @@ class Spec:
                  "model_out_of_domain": 0, "small_cases": 0, "chunk_outcomes": {}, "ref_checked": 0, "head_features": {},
                  "noncanonical_field_list_cases": 0, "noncanonical_compared_with_model": 0, "take_cases": 0,
                  "compared_with_real_parser_composition": 0,
+                 "reply_connection_calls": {"compared": 0, "wire_announced_close": 0, "no_close_on_wire": 0},
                  "bodytake": {"cases": 0, "partial_take_happened": 0, "chunked": 0, "identity": 0, "outcomes": {}}}
         # corpus first
         cdir = os.path.join(vlib.VERIF, "corpus", ENGINE)
@@ -1551,7 +1640,8 @@ class Spec:
         n_streams = (2500 if ctx.tier == "quick" else 15000) * (2 if boost else 1)
         cases = self.expect_cases(ctx, 150 if ctx.tier == "quick" else 1500) \
             + self.stale_buffer_cases(ctx, 120 if ctx.tier == "quick" else 1200) \
-            + self.lenient_head_cases(ctx, 600 if ctx.tier == "quick" else 6000) + self.gen_cases(ctx, n_streams)
+            + self.lenient_head_cases(ctx, 600 if ctx.tier == "quick" else 6000) \
+            + self.conn_header_cases(ctx, 1000 if ctx.tier == "quick" else 10000) + self.gen_cases(ctx, n_streams)
         B = 1500
         for i in range(0, len(cases), B):
             self.run_cases(cases[i:i + B], failures, stats)
@@ -1587,6 +1677,7 @@ class Spec:
                "noncanonical_field_lists": {"daemon_cases": stats["noncanonical_field_list_cases"],
                                             "of_which_compared_with_model": stats["noncanonical_compared_with_model"],
                                             "features": stats["head_features"]},
+               "reply_connection_header_built_by_api_calls": stats["reply_connection_calls"],
                "partial_takes": {"daemon_cases_with_take_pattern": stats["take_cases"], "white_box": stats["bodytake"]},
                "exhaustive": False}
         return failures, cov
@@ -1608,7 +1699,9 @@ def replay(ctx, path):
         return 0 if hout == mout else 1
     segs = [bytes.fromhex(s) if s != "-" else b"" for s in inp["segs"]]
     c = {"lvl": inp["lvl"], "mem": inp["mem"], "behs": inp["behs"], "segs": segs, "stream": b"".join(segs),
-         "defect": inp.get("defect"), "take": inp.get("take")}
+         "defect": inp.get("defect"), "take": inp.get("take"),
+         "resp_seq": {int(i): [(op, bytes.fromhex(nm), bytes.fromhex(vl)) for op, nm, vl in v]
+                      for i, v in (inp.get("resp_seq") or {}).items()}}
     if inp.get("defect", "") and str(inp.get("defect")).startswith("no-space"):
         sp.run_small([c], fl, stats)
     else:
